@@ -1,4 +1,5 @@
 import Chewing.Proofs.C01Apply
+import Chewing.Proofs.C01Conv
 /-!
 # C01 — no call sequence, key or configuration can crash or hang the engine
 
@@ -49,7 +50,8 @@ steps panic) and the crash campaigns only.
 
 The conversion engines enter through `EnvOK.convert_ok`, which is C03's `nonempty_result` + `alt_chain` +
 `one_char_per_symbol` + `fuel_suffices` (proved there for the engine model under `CompValid`, a word per
-syllable and `ScoreBound`); `compValid_of_cinv` proves that `EditorInv` implies C03's `CompValid`.
+syllable and `ScoreBound`); `compValid_of_cinv` proves that `EditorInv` implies C03's `CompValid`, and
+`engines_satisfy_convert_ok` that C03's engine model satisfies `convert_ok` (buffers ≤ 128 symbols).
 -/
 namespace Chewing.C01
 open Chewing Chewing.C04 Chewing.C05 Chewing.C06
@@ -98,6 +100,16 @@ theorem initial_inv (sh : Shared D L) (hg : G sh.dict) (hcom : sh.com = {})
   intro c hc
   rw [hcom] at hc
   cases hc
+
+/-- **link to C03**: the engine model of C03 (all three engines, any in-range pick oracle) satisfies the
+    hypothesis `EnvOK.convert_ok` the theorems above make about `env.convert`, on buffers of at most 128
+    symbols over dictionaries with frequencies ≤ 2^23 (`ScoreBound`) -/
+theorem engines_satisfy_convert_ok {pick : Nat → List Conv.Path → Nat} (hp : Conv.PickInRange pick) {d : Dict}
+    (hd : Conv.NoEmptyKey d) (hw : Conv.WellFormed d) (hf : ∀ strat key, ∀ p ∈ d.lookup key strat, p.freq ≤ 8388608)
+    (k : EngineKind) {c : Composition} (hi : CInv c) (hlen : c.symbols.length ≤ 128)
+    (hword : ∀ x, Sym.syl x ∈ c.symbols → (d.lookup [x] (engStrategy k)).head?.isSome = true) :
+    OkAnd (fun paths => paths ≠ [] ∧ ∀ p ∈ paths, PathOK c p) (Conv.convert pick (toEngine k) d c) :=
+  convert_ok_of_C03 hp hd hw hf k (compValid_of_cinv hi) hlen hword
 
 /-- the statement the package aims at: `C01_partial` without the `Covered` restriction -/
 def C01_target : Prop :=
